@@ -551,7 +551,8 @@ def _judge_class(run, rec, o):
       continue
     # clause threshold (the draw set that rounds up is {u <= frac}: unbiasedness)
     # judged strictly on either side of frac; at u == frac exactly both outcomes leave P(up) within
-    # 2^-23 of frac (the model, like the code, rounds up there — a change shows as a disagreement)
+    # 2^-23 of frac (the model, like the code, rounds up there for stochastic_round and down for
+    # stochastic_round_po2 — a change shows as a disagreement)
     up = (yi == above[i])
     if (u < fracs[i] and not up) or (u > fracs[i] and up):
       run.violate("threshold", {"class": cls, "kind": "up" if up else "down"},
@@ -634,7 +635,8 @@ def _binary(run, tier, rng, tf, Q, K, draws, call):
         run.violate("inference_equal", {"class": "binary", "kind": "value"},
                     dict(ident, x=str(xs[bad[0]]), output=str(impl[bad[0]]), twin=str(tw[bad[0]])),
                     mirrored=agree[bad[0]])
-  # phase-0 shape behaviour (finding C08-binary-shape): `tf.ones_like(tf.shape(x))` has shape [rank]
+  # phase-0 shape behaviour (regression of repair 65bdf0f: the fill used to be
+  # `tf.ones_like(tf.shape(x))`, shape [rank]); every shape must come back with the twin's values
   shapes = [(5,), (4, 2), (3, 4), (2, 3, 3), (2, 2, 5), (6, 1), (1,), (2, 2, 2, 4)]
   souts = core.run_driver("C08", [{"op": "binshape", "shape": list(s)} for s in shapes])
   qs = Q.binary(alpha=1.0, use_stochastic_rounding=True)
